@@ -1,8 +1,11 @@
 (* Replays the ops of an implementation trace on the extracted model and prints
    the same observation groups in the same syntax. `O n setparams <max_timeout> <multiple> <min_deposit>
    <tax 1e18> <slash 1e18> <arb ns> <compl ns>` is a governance parameter change; the `params` query and
-   the genesis export answer from the parameters in force. Reads the trace on stdin,
-   writes the model trace on stdout. Only H/P/A/F/Q/O/E lines are read. *)
+   the genesis export answer from the parameters in force. `M <provider atom> <result code> <output atom>
+   <output valid>` is the module registered for the module service (its provider address and the fixed
+   answer of its request function): a `call` whose service is the module service (`p_modsvc`) runs the
+   module-service branch of the handler, `XCallMod` of Model/ModSvc.v (known finding K3, inside the model).
+   Reads the trace on stdin, writes the model trace on stdout. Only H/P/A/M/F/Q/O/E lines are read. *)
 module BZ = Z
 open Model
 
@@ -311,6 +314,8 @@ let () =
   let addr_len : (string, int) Hashtbl.t = Hashtbl.create 32 in
   let pending_q : string list ref = ref [] in
   let h0 = ref Z0 and t0 = ref Z0 in
+  (* the registered module service: provider atom, result code, output atom, output valid *)
+  let modsvc = ref (Z0, Z0, Z0, true) in
   let prev : (string, string) Hashtbl.t = Hashtbl.create 16 in
   let observe step oldlog =
     match !st with
@@ -341,7 +346,7 @@ let () =
         | "H" ->
             print_string line; print_char '\n';
             cfg := None; st := None; atoms := []; funding := []; Hashtbl.reset prev;
-            Hashtbl.reset addr_len; pending_q := []
+            Hashtbl.reset addr_len; pending_q := []; modsvc := (Z0, Z0, Z0, true)
         | "P" ->
             let mt = nz t in let mu = nz t in let md = nz t in let tax = nz t in let sl = nz t in
             let arb = nz t in let co = nz t in let ms = nz t in let cm = nz t in
@@ -353,14 +358,18 @@ let () =
             let hex = (match t.l with h :: _ -> h | [] -> "") in
             Hashtbl.replace addr_len a (String.length hex / 2);
             atoms := zs a :: !atoms
+        | "M" ->
+            let p = nz t in let code = nz t in let out = nz t in let ov = nb t in
+            modsvc := (p, code, out, ov)
         | "Q" -> start (); pending_q := line :: !pending_q
         | "F" -> let a = nz t in let amt = nz t in funding := (a, amt) :: !funding
         | "O" ->
             start ();
             let step_no = int_of_string (next t) in
             let kind = (match t.l with k :: _ -> k | [] -> "") in
-            (* every op runs through the extracted parameter machine `pstep` (Model/ParamStep.v):
-               PO o = `step` under the parameters in force; PSet c = governance parameter change *)
+            (* every op runs through the extracted machine `xstep` (Model/ModSvc.v): XP p = `pstep`
+               (Model/ParamStep.v: PO o = `step` under the parameters in force; PSet c = governance parameter
+               change); XCallMod = a `call` whose service is the module-registered one *)
             let pop = (match kind with
               | "setparams" ->
                   ignore (next t);
@@ -373,7 +382,14 @@ let () =
             (match pop, !cfg, !st with
              | Some o, Some c, Some s ->
                  let oldlog = List.length s.log in
-                 let ((c', s'), out) = pstep (c, s) o in
+                 let xo = (match o with
+                   | PO (OCall (id, svc, provs, cons, input, cap, timeout, sup, rep, freq, total, iok, ok))
+                     when svc = c.p_modsvc ->
+                       let (mp, code, mout, ov) = !modsvc in
+                       XCallMod (id, svc, provs, cons, input, cap, timeout, sup, rep, freq, total, iok, ok,
+                                 mp, code, mout, ov)
+                   | _ -> XP o) in
+                 let ((c', s'), out) = xstep (c, s) xo in
                  cfg := Some c';
                  st := Some s';
                  Printf.printf "R %d %s\n" step_no (match out with ROk -> "ok" | RErr -> "err" | RPanic -> "panic");
